@@ -57,7 +57,7 @@ func execC13(t *testing.T, job vx.Job) (res vx.Result) {
 	res.NonTrivial = len(col.classes) > 0
 	res.Key = fmt.Sprint(job.Args)
 	res.HarnessErr = col.harness
-	obs := map[string]any{"outcomes": col.outcomes, "sample": col.sample, "ms": time.Since(t0).Milliseconds()}
+	obs := map[string]any{"outcomes": col.outcomes, "sample": col.sample, "sample_good": col.sampleGood, "ms": time.Since(t0).Milliseconds()}
 	res.Obs, _ = json.Marshal(obs)
 	res.Outcome = job.Args["fam"] + ":" + scheme
 	return res
@@ -80,6 +80,8 @@ type seqRunner struct {
 	ops []op
 	od  *operands
 	col *collector
+
+	grewSteps int // steps of the last run in which the signer set grew
 }
 
 func (r *seqRunner) describe(seq []int) string {
@@ -98,10 +100,14 @@ func (r *seqRunner) describe(seq []int) string {
 func (r *seqRunner) run(seq []int) (gcrypto.CommonMessageSignatureProof, set, bool) {
 	p := r.fx.newProof(mMain)
 	var M set
+	r.grewSteps = 0
 	for i, k := range seq {
 		sr := r.fx.apply(p, M, &r.ops[k], r.od, r.col, func() string { return r.describe(seq[:i]) })
 		if sr.paniced {
 			return p, M, false
+		}
+		if sr.grew {
+			r.grewSteps++
 		}
 		// Follow the implementation's set from here on so that one defect is reported once, at its source.
 		M = sr.after & r.fx.full()
@@ -115,7 +121,8 @@ func runSeqShard(fx *fixture, args map[string]string, col *collector) {
 	ops := fx.baseOps()
 	r := &seqRunner{fx: fx, ops: ops, od: newOperands(fx), col: col}
 	depth := atoiDef(args["depth"], 3)
-	a := atoiDef(args["a"], 0)
+	a0 := atoiDef(args["a0"], 0)
+	a1 := atoiDef(args["a1"], a0+1)
 	b0, b1 := atoiDef(args["b0"], 0), atoiDef(args["b1"], len(ops))
 	var rec func(seq []int)
 	rec = func(seq []int) {
@@ -156,7 +163,8 @@ func runSeqShard(fx *fixture, args map[string]string, col *collector) {
 		if grew == 1 {
 			col.class(fmt.Sprintf("%s/%d/seq/%x/%s", fx.scheme, fx.n, M, kinds))
 		}
-		if col.sample == "" && len(seq) == depth && M != 0 {
+		if (col.sample == "" || (!col.sampleGood && r.grewSteps == len(seq))) && len(seq) == depth && M != 0 {
+			col.sampleGood = r.grewSteps == len(seq)
 			col.sample = fmt.Sprintf("%s n=%d: %s => signer set %s", fx.scheme, fx.n, r.describe(seq), setStr(M))
 		}
 		if len(seq) >= depth || !ok {
@@ -170,12 +178,14 @@ func runSeqShard(fx *fixture, args map[string]string, col *collector) {
 			rec(append(seq, k))
 		}
 	}
-	// The length-1 sequence (a) is counted by the shard with b0 == 0 only.
-	if b0 == 0 {
-		rec([]int{a})
-	} else {
-		for k := b0; k < b1 && k < len(ops); k++ {
-			rec([]int{a, k})
+	for a := a0; a < a1 && a < len(ops); a++ {
+		// The length-1 sequence (a) is counted by the shard with b0 == 0 only.
+		if b0 == 0 {
+			rec([]int{a})
+		} else {
+			for k := b0; k < b1 && k < len(ops); k++ {
+				rec([]int{a, k})
+			}
 		}
 	}
 }
@@ -261,7 +271,8 @@ func runCloneShard(fx *fixture, args map[string]string, col *collector) {
 	if pre <= 1 {
 		prefixes = [][]int{{a}}
 	} else {
-		for b := range ops {
+		b0, b1 := atoiDef(args["b0"], 0), atoiDef(args["b1"], len(ops))
+		for b := b0; b < b1 && b < len(ops); b++ {
 			prefixes = append(prefixes, []int{a, b})
 		}
 	}
